@@ -552,6 +552,10 @@ def run_case(case: dict, ctx: dict) -> dict:
             if tree[rel] != base_tree[rel]:
                 # every differing file is classified: a known defect in one file must not hide a new one in another
                 cls = classify_diff(opts["lang"], rel, base_tree[rel], tree[rel])
+                if "py-model-pickles-pydsdl-memoization-caches" in cls and not any(str(x).startswith("-O") for x in (delta.get("py_flags") or [])):
+                    # the recorded defect is "the bytes change under python -O / -OO"; the same symptom in a world whose
+                    # interpreter is not optimised (another hash seed, another enumeration order ...) is something else
+                    cls += ":interpreter-not-optimised"
                 sig = "%s:differs:%s:%s:%s" % (PROP, opts["lang"], nnvg.sig_kind(rel), cls)
                 if sig in seen_here:
                     continue
